@@ -205,6 +205,28 @@ ALPHA = ['a', 'b', 'A', 'B', 'c', ' ', 'É', 'é', 'ß', 'Σ', 'σ', 'ς', 'İ',
 def rand_str(rng, maxlen=6):
     return ''.join(rng.choice(ALPHA) for _ in range(rng.randrange(maxlen + 1)))
 
+def go_lower_table():
+    """cp -> unicode.ToLower(cp) of the toolchain in use (coq/LowerGen.v, regenerated by build.sh), and its inverse"""
+    low, up = {}, {}
+    for line in open(os.path.join(VERIF, 'coq', 'LowerGen.v'), encoding='utf-8'):
+        line = line.strip().rstrip(';').rstrip('].')
+        if line.startswith('('):
+            try:
+                a, b = line.strip('()').split(',')
+                low[int(a)] = int(b)
+                up.setdefault(int(b), []).append(int(a))
+            except ValueError:
+                pass
+    return low, up
+
+def case_variant(rng, text, up):
+    """a text that lower-cases to the same text as [text] does: every character replaced, or not, by one of its capitals"""
+    out = []
+    for ch in text:
+        cands = [ord(ch)] + up.get(ord(ch), [])
+        out.append(chr(rng.choice(cands)) if rng.random() < 0.6 else ch)
+    return ''.join(out)
+
 def check_C04(ctx):
     cs = CaseSet()
     lits = [('string', s) for s in STR_LITS]
@@ -224,6 +246,25 @@ def check_C04(ctx):
             av = S(a.encode() + bytes([ctx.rng.randrange(128, 256)]))
         op = ctx.rng.choice(STR_OPS)
         cs.eval('x %s "%s"' % (ctx.rng.choice(OP_SPELL[op]), lit), ('m', [(b'x', av)]), 'str-random', attr=av, lit=('string', lit), op=op)
+    # case-insensitivity over the whole case-mapping table: lower-case texts drawn from the letters that have capitals whose
+    # UTF-8 length differs, that have several capitals, or that fold to other letters; attribute / literal = capitalised variants
+    low, up = go_lower_table()
+    special = sorted(l for l, us in up.items() if len(us) > 1 or any(len(chr(u).encode('utf-8', 'surrogatepass')) != len(chr(l).encode('utf-8', 'surrogatepass')) for u in us))
+    special += [0x17f, 0x3c2, 0x3d1, 0x3d0, 0x3f0, 0x3f1, 0x3f5, 0x1e9b, 0xb5, 0x131, 0xdf]      # fold-orbit letters that are already lower case
+    letters = [chr(c) for c in special if chr(c) not in '"\\'] + list('abkis')
+    for _ in range(ctx.n(1500, 40000)):
+        base = ''.join(ctx.rng.choice(letters) for _ in range(ctx.rng.randint(1, 4)))
+        lit = case_variant(ctx.rng, base, up)
+        r = ctx.rng.random()
+        if r < 0.5:
+            a = case_variant(ctx.rng, base, up)
+        elif r < 0.8:
+            a = case_variant(ctx.rng, ctx.rng.choice(['', 'a', 'ab']) + base + ctx.rng.choice(['', 'b', 'ab']), up)
+        else:
+            a = case_variant(ctx.rng, ''.join(ctx.rng.choice(letters) for _ in range(ctx.rng.randint(0, 4))), up)
+        op = ctx.rng.choice(STR_OPS)
+        av = S(a)
+        cs.eval('x %s "%s"' % (ctx.rng.choice(OP_SPELL[op]), lit), ('m', [(b'x', av)]), 'str-casemap', attr=av, lit=('string', lit), op=op)
     # strings.ToLower of the model (generated table + Map model) against the real one: every mapped code point
     import importlib
     pairs = []
